@@ -161,6 +161,13 @@ def draw_summary(prog, f, memo=None, stack=()):
                     out.append(("opaque-closure", tuple(factors)))
                     continue
                 mult = [("each", ("closure-items", f.key))]
+                if ci.get("name") in ("map", "for_each", "try_for_each", "fold", "try_fold") and (ci.get("trait") or "").endswith("Iterator") and args:
+                    # the closure runs once per element of the traversed collection (no element-dropping adaptor before it)
+                    from .lib import seq_view
+                    sv_ = seq_view(args[0])
+                    if sv_ is not None and not sv_["adaptors"] and not sv_["drop_front"] and not sv_["drop_back"] and \
+                            sv_["base"][0] not in ("agg",) and _range_len(_strip(args[0])) is None:
+                        mult = [("each", sv_["base"])]
                 rl = _range_len(_strip(args[0])) if args else None
                 if rl is not None:
                     mult = [("n", rl)]      # `(0..k).map(|_| draw)`: once per element of the range
